@@ -136,18 +136,20 @@ class Douglas(DiscriminativeModel):
     def _init_params(self, random_state, X=None):
         # Create the parameters
         if self.feature_mask is None:
-            self.cut_points_list_ = [(i, random_state.normal(size=(self.n_cuts,))) for i in range(X.shape[1])]
+            cut_points_list = [(i, random_state.normal(size=(self.n_cuts,))) for i in range(X.shape[1])]
             num_leaf = int((self.n_cuts + 1) ** X.shape[1])
         else:
             if len(self.feature_mask) != X.shape[1]:
                 raise ValueError("The boolean feature mask must have as much entries as the number of features")
-            self.cut_points_list_ = [(i, random_state.normal(size=self.n_cuts, )) for i in range(X.shape[1])
-                                     if self.feature_mask[i]]
-            num_leaf = int((self.n_cuts + 1) ** len(self.cut_points_list_))
+            cut_points_list = [(i, random_state.normal(size=self.n_cuts, )) for i in range(X.shape[1])
+                               if self.feature_mask[i]]
+            num_leaf = int((self.n_cuts + 1) ** len(cut_points_list))
 
         if self.verbose:
             print(f"Total will be {num_leaf} values per sample")
-        self.leaf_scores_ = random_state.normal(size=(num_leaf, self.n_clusters))
+        leaf_scores = random_state.normal(size=(num_leaf, self.n_clusters))
+        # Both parameters are set together: a failed initialisation leaves no half-built model behind
+        self.cut_points_list_, self.leaf_scores_ = cut_points_list, leaf_scores
 
     def _compute_grads(self, X, y_pred, gradient):
         # Start by the backprop through the softmax
